@@ -240,7 +240,8 @@ def check(ctx, rep):
             gs = G.guards_at(sb, bi)
             is_empty = any((g.op == "Eq" and g.b is not None and g.b.kind == "const" and g.b.v == 0 and "len" in repr(g.a) and ".ids" in repr(g.a)) or
                            (g.op == "Lt" and g.b is not None and g.b.kind == "const" and g.b.v == 1 and "len" in repr(g.a) and ".ids" in repr(g.a)) or
-                           (g.op == "Eq" and g.a is not None and g.a.kind == "discr" and ("::%s(" % which) in repr(g.a) and g.b.v == 0) for g in gs)
+                           (g.op == "Eq" and g.a is not None and g.a.kind == "discr" and ("::%s(" % which) in repr(g.a) and g.b.v == 0) or
+                           (g.op == "Ne" and g.a is not None and g.a.kind == "discr" and ("::%s(" % which) in repr(g.a) and g.b is not None and g.b.v == 1) for g in gs)
             confined = confined and is_empty
         if confined:
             rep.ok("R-UNITS", key, sb.where(), "the empty result is returned only when the unit has no identifiers")
